@@ -88,6 +88,14 @@ def runIdx (is : List Instr) : RunRes :=
         go r' (idx + 1) rest acc
   go {} 0 is {}
 
+/-- the instructions that decode before the first byte that does not (or the STOP) -/
+def lexPrefix : Nat → List UInt8 → List Instr
+  | 0, _ => []
+  | n + 1, bs =>
+    match Lex.lexOne bs with
+    | .error _ => []
+    | .ok (i, r) => if i.op = .stop then [i] else i :: lexPrefix n r
+
 def verdict (ok : Bool) (detail : String) : String := if ok then "ok" else "FAIL:" ++ san detail
 
 def oracleLine (toks : List String) : String :=
@@ -98,7 +106,19 @@ def oracleLine (toks : List String) : String :=
   else
     let out := unhex (res.drop 3).toString
     match Lex.lex out with
-    | .error e => s!"oracle id={id} gen=ok len={out.length} C04=FAIL:lex:{san (reprStr e)}"
+    | .error e =>
+      -- the disassembler works through the stream in order: whatever it meets in the decodable prefix before the
+      -- byte it cannot decode is judged as usual (a stream that stops decoding has no final STOP to judge)
+      let pre := lexPrefix (out.length + 1) out
+      let rr := runIdx pre
+      let at_ (i : Nat) : String := (pre[i]?.map (fun (x : Instr) => x.op.name)).getD "?"
+      let c01 := match rr.stackErr with
+        | none => "ok"
+        | some (i, e') => "FAIL:" ++ san s!"instr#{i}:{at_ i}:{reprStr e'}:in_the_decodable_prefix_of_a_stream_that_stops_decoding"
+      let fmtV (l : List (Nat × Ref.Viol)) : String := match l.reverse with
+        | [] => "ok"
+        | (i, v) :: _ => "FAIL:" ++ san s!"instr#{i}:{at_ i}:{reprStr v}:total={l.length}:in_the_decodable_prefix"
+      s!"oracle id={id} gen=ok len={out.length} n={pre.length} C04=FAIL:lex:{san (reprStr e)} C01={c01} C02={fmtV rr.memoV} C03={fmtV rr.typedV}"
     | .ok is =>
       let rr := runIdx is
       let hist := Op.all.filterMap (fun o =>
@@ -278,6 +298,7 @@ def traceLine (toks : List String) : String :=
           if !tOk then fail s!"target {target} outside [{c.minOps},{c.maxOps})"
           else if bodyEnd != target then fail s!"body emitted {bodyEnd} opcodes for target {target}"
           else
+            let vl : List String := (kvD toks "valid" "-").splitOn ","
             let rec go (s : State) (rr : Ref.RState) (prev : Nat) (idx : Nat) (l : List String) (tail : List Op)
                 (sBody : State) : Except String (State × Nat × List Op × State) :=
               match l with
@@ -314,6 +335,11 @@ def traceLine (toks : List String) : String :=
                             | .ok (r', _) => r'
                             | .error _ => rr
                           if idx < bodyEnd then
+                            let listed := (vl[idx]?).getD "-"
+                            let mlist := hexOf ((validOps (Gen.table c.version) c s).map Gen.asU8)
+                            if listed != "-" && listed != (if mlist.isEmpty then "e" else mlist) then
+                              .error s!"step {idx}: the candidate list the body loop drew from differs from the guards: loop={listed} guards={mlist} top={stackStr (s.stack.take 6)} memo={s.memo.length}"
+                            else
                             if !(Gen.table c.version).contains ins.op then .error s!"step {idx}: {ins.op.name} not in the protocol table"
                             else if !canEmit c s ins.op then .error s!"step {idx}: {ins.op.name} emitted but the model's guard is false; top={stackStr (s.stack.take 6)}"
                             else if !c.unsafeMut && !argOk s ins.op ins.arg then .error s!"step {idx}: {ins.op.name} argument {reprStr ins.arg} not admissible (memo size {s.memo.length})"
